@@ -837,6 +837,15 @@ GRgetdatainfo(int32 riid, unsigned start_block, unsigned info_count, int32 *offs
     else {
         length = Hlength(hdf_file_id, ri_ptr->img_tag, ri_ptr->img_ref);
         if (length == FAIL) {
+            uint16 find_tag = 0, find_ref = 0;
+            int32  find_off = 0, find_len = 0;
+
+            /* "no data yet" means the descriptor is absent or has no offset and
+               length; failing to get the length of data that is there is an error */
+            if (Hfind(hdf_file_id, ri_ptr->img_tag, ri_ptr->img_ref, &find_tag, &find_ref, &find_off, &find_len,
+                      DF_FORWARD) != FAIL &&
+                find_off != INVALID_OFFSET && find_len != INVALID_LENGTH)
+                HGOTO_ERROR(DFE_BADLEN, FAIL);
             if ((offsetarray != NULL && lengtharray != NULL))
                 *offsetarray = *lengtharray = 0;
             HGOTO_DONE(0);
